@@ -112,37 +112,50 @@ impl Evidence {
 
 /// Per-case statistics handle given to property closures.
 pub struct CaseStats<'a> {
-    ev: &'a RefCell<Evidence>,
-    live: &'a Cell<bool>,
+    ev: Option<&'a RefCell<Evidence>>,
+    live: Option<&'a Cell<bool>>,
     salt: u64,
+}
+
+impl CaseStats<'static> {
+    /// A sink that records nothing (for worker threads; the caller counts by construction).
+    pub fn null() -> CaseStats<'static> {
+        CaseStats { ev: None, live: None, salt: 0 }
+    }
 }
 
 impl<'a> CaseStats<'a> {
     /// Counts one evaluation (one oracle comparison unit).
+    fn on(&self) -> Option<&'a RefCell<Evidence>> {
+        match (self.ev, self.live) {
+            (Some(ev), Some(l)) if l.get() => Some(ev),
+            _ => None,
+        }
+    }
     pub fn eval(&self) {
-        if self.live.get() {
-            self.ev.borrow_mut().evaluations += 1;
+        if let Some(ev) = self.on() {
+            ev.borrow_mut().evaluations += 1;
         }
     }
     pub fn evals(&self, n: u64) {
-        if self.live.get() {
-            self.ev.borrow_mut().evaluations += n;
+        if let Some(ev) = self.on() {
+            ev.borrow_mut().evaluations += n;
         }
     }
     pub fn class(&self, name: &str) {
-        if self.live.get() {
-            self.ev.borrow_mut().class(name);
+        if let Some(ev) = self.on() {
+            ev.borrow_mut().class(name);
         }
     }
     /// Records a non-trivial case by digest.
     pub fn nontrivial(&self, digest: u64) {
-        if self.live.get() {
-            self.ev.borrow_mut().nontrivial.insert(fnv_mix(self.salt, digest));
+        if let Some(ev) = self.on() {
+            ev.borrow_mut().nontrivial.insert(fnv_mix(self.salt, digest));
         }
     }
     pub fn sample(&self, f: impl FnOnce() -> Value) {
-        if self.live.get() {
-            let mut ev = self.ev.borrow_mut();
+        if let Some(ev) = self.on() {
+            let mut ev = ev.borrow_mut();
             if ev.samples.len() < 12 {
                 let v = f();
                 ev.samples.push(v);
@@ -150,8 +163,8 @@ impl<'a> CaseStats<'a> {
         }
     }
     pub fn excluded(&self) {
-        if self.live.get() {
-            self.ev.borrow_mut().excluded_by_known_finding += 1;
+        if let Some(ev) = self.on() {
+            ev.borrow_mut().excluded_by_known_finding += 1;
         }
     }
 }
@@ -210,7 +223,7 @@ impl<'a> Ctx<'a> {
     }
 
     pub fn stats<'b>(&'b self, stream: &str, live: &'b Cell<bool>) -> CaseStats<'b> {
-        CaseStats { ev: &self.ev, live, salt: self.salt(stream) }
+        CaseStats { ev: Some(&self.ev), live: Some(live), salt: self.salt(stream) }
     }
 
     pub fn note(&self, s: impl Into<String>) {
